@@ -59,7 +59,9 @@ ASSUMPTIONS = [
     "ZeroDivisionError; values are ints, Files and the caught exception; one root call t0(arg) per execution",
     "edits between executions: new body (new source text / new version string), revert to an earlier body or version, version "
     "bump with unchanged body, check_valid full<->shallow (hash unchanged), input file rewritten or restored with explicitly "
-    "set mtime (distinct stamp <-> distinct content), root argument change. A task with an explicit version= changes its body "
+    "set mtime (distinct stamp <-> distinct content), root argument change - in 15% of the histories between look-alike primitives "
+    "(0, 0.0, -0.0, False / 1, 1.0, True: equal under ==, different values) given to tasks that look at the type and sign of their "
+    "argument. A task with an explicit version= changes its body "
     "only together with the version string (redun's contract for version=)",
     "check_valid='shallow' tasks are generated only in workflows where no body stats a file (shallow validity skips "
     "intermediate values by design; the theorem has the same hypothesis: WorldFree or no shallow task)",
@@ -107,7 +109,7 @@ SIG_CSE = "C02-shallow-hit-after-cse-twin"
 # Tm terms (tuples):  ("arg",) ("numarg",) ("lit", z) ("file", p) ("add", a, b) ("call", n, t) ("catch", t, cls, rec)
 def tm_sx(t):
     k = t[0]
-    if k in ("arg", "numarg"):
+    if k in ("arg", "numarg", "kindarg"):
         return Raw(k)
     if k == "lit":
         return t[1]
@@ -128,6 +130,8 @@ def tm_py(t, paths):
         return "x"
     if k == "numarg":
         return "_num(x)"
+    if k == "kindarg":
+        return "_kind(x)"
     if k == "lit":
         return "(%d)" % t[1]
     if k == "file":
@@ -139,6 +143,22 @@ def tm_py(t, paths):
     if k == "catch":
         return "catch(%s, %s, t%d)" % (tm_py(t[1], paths), ERR[t[2]], t[3])
     raise ValueError(t)
+
+
+def val_sx(a):
+    """argument value of the spec level -> protocol: int | ("file", p, stamp) | ("prim", tag, z)"""
+    if isinstance(a, int):
+        return a
+    return [Raw(a[0]), a[1], a[2]]
+
+
+# look-alike primitives: equal under ==, different values.  ("prim", 1, z) = float(z), ("prim", 2, 0) = -0.0, ("prim", 3, z) = bool(z)
+def prim_py(a):
+    tag, z = a[1], a[2]
+    return float(z) if tag == 1 else (-0.0 if tag == 2 else bool(z))
+
+
+LOOKALIKES = [0, ("prim", 1, 0), ("prim", 2, 0), ("prim", 3, 0), 1, ("prim", 1, 1), ("prim", 3, 1)]
 
 
 def spec_sx(s):
@@ -177,9 +197,8 @@ class Hist:
             code = [[i, v, bool(sh), self.tasks[i]["mode"] == "ver"] for i, (v, sh) in sorted(st["code"].items())]
             fs = [[p, s] for p, s in sorted(st["fs"].items())]
             n, a = st["root"]
-            aval = a if isinstance(a, int) else [Raw("file"), a[1], a[2]]
-            err = [[i, v, (x if isinstance(x, int) else [Raw("file"), x[1], x[2]])] for (i, v, x) in st.get("err", [])]
-            steps.append([Raw("step"), [Raw("code")] + code, [Raw("fs")] + fs, [Raw("root"), n, aval], [Raw("err")] + err])
+            err = [[i, v, val_sx(x)] for (i, v, x) in st.get("err", [])]
+            steps.append([Raw("step"), [Raw("code")] + code, [Raw("fs")] + fs, [Raw("root"), n, val_sx(a)], [Raw("err")] + err])
         return ("hist " + sx([Raw("V"), bool(flags["simpleExprValid"]), bool(flags["cseSubtreeFromDb"]), bool(flags.get("noCatchCache", False))]) + " " +
                 sx([Raw("tbl")] + self.table()) + " " + sx([Raw("steps")] + steps))
 
@@ -255,10 +274,24 @@ def gen_spec(rng, i, hist, allow_catch, allow_file, p_raise=0.12):
     return ("ret", gen_tm(rng, i, hist, rng.choice([1, 2, 2, 3]), allow_catch, allow_file))
 
 
-def gen_history(rng, nsteps, allow_catch, allow_shallow=True):
+def gen_tm_prim(rng, i, n, depth):
+    """int-typed template of a task that may be handed a look-alike primitive: the argument is only passed on, or looked at
+    through its number / its kind (type and sign) - no arithmetic on the raw argument"""
+    callees = list(range(i + 1, n))
+    k = rng.random()
+    if depth <= 0 or not callees or k < 0.3:
+        return rng.choice([("kindarg",), ("kindarg",), ("numarg",), ("add", ("kindarg",), ("numarg",)), ("lit", rng.choice([0, 1, 5]))])
+    if k < 0.65:
+        return ("call", rng.choice(callees), rng.choice([("arg",), ("arg",), ("kindarg",), ("numarg",)]))
+    return ("add", gen_tm_prim(rng, i, n, depth - 1), gen_tm_prim(rng, i, n, depth - 1))
+
+
+def gen_history(rng, nsteps, allow_catch, allow_shallow=True, prim=False):
     n = rng.choice([3, 4, 4, 5, 6])
     h = Hist(n)
-    allow_file = rng.random() < 0.6
+    allow_file = rng.random() < 0.6 and not prim
+    if prim:
+        allow_catch = False
     for i in range(n):
         r = rng.random()
         if i == 0:
@@ -274,8 +307,12 @@ def gen_history(rng, nsteps, allow_catch, allow_shallow=True):
         h.tasks[-1]["kind"] = "F"
     for i in range(n):
         h.versions.append([])
+    def new_spec(i, p_raise):
+        if prim:
+            return ("ret", gen_tm_prim(rng, i, n, rng.choice([1, 2, 2])))
+        return gen_spec(rng, i, h, allow_catch, allow_file, p_raise=p_raise)
     for i in reversed(range(n)):
-        h.versions[i].append(gen_spec(rng, i, h, allow_catch, allow_file, p_raise=0.08))
+        h.versions[i].append(new_spec(i, 0.08))
     # shallow tasks must not sit above a body that stats a file (documented trade-off of check_valid="shallow":
     # intermediate external values are not re-validated); the generator keeps file-stating bodies out of programs
     # that use shallow tasks
@@ -284,7 +321,7 @@ def gen_history(rng, nsteps, allow_catch, allow_shallow=True):
     fs = {p: 1 for p in range(h.npaths)}
     stamps = {p: [1] for p in range(h.npaths)}
     root_task = 0
-    arg = rng.choice([0, 1, 2])
+    arg = rng.choice(LOOKALIKES) if prim else rng.choice([0, 1, 2])
     for s in range(nsteps):
         edits = []
         if s > 0:
@@ -292,8 +329,11 @@ def gen_history(rng, nsteps, allow_catch, allow_shallow=True):
                 r = rng.random()
                 i = rng.randrange(n)
                 v, sh = code[i]
-                if r < 0.40:                                   # new body (new hash)
-                    sp = gen_spec(rng, i, h, allow_catch, allow_file)
+                if prim and r < 0.55:                          # argument change to a look-alike (0 / 0.0 / -0.0 / False, 1 / 1.0 / True)
+                    arg = rng.choice([x for x in LOOKALIKES if x != arg])
+                    edits.append(["arg", arg])
+                elif r < 0.40 or (prim and r < 0.75):          # new body (new hash)
+                    sp = new_spec(i, 0.12)
                     if h.tasks[i]["mode"] == "src" and sp in h.versions[i]:
                         nv = h.versions[i].index(sp)           # same source text = same hash
                     else:
@@ -372,9 +412,11 @@ class RealHist:
 
     def module_text(self, code):
         h = self.hist
-        out = ["from redun import task, File", "from redun.scheduler import catch", "", "",
+        out = ["import math", "from redun import task, File", "from redun.scheduler import catch", "", "",
                "def _num(x):", "    if isinstance(x, File):", "        with open(x.path) as f:",
-               "            return int(f.read())", "    return x", ""]
+               "            return int(f.read())", "    return int(x)", "", "",
+               "def _kind(x):", "    if isinstance(x, bool):", "        return 3", "    if isinstance(x, float):",
+               "        return 2 if math.copysign(1.0, x) < 0 else 1", "    return 0 if isinstance(x, int) else 9", ""]
         for i in sorted(code):
             v, sh = code[i]
             spec = h.versions[i][v]
@@ -408,13 +450,16 @@ class RealHist:
         from redun import File
         n, a = root
         if not isinstance(a, int):
-            a = File(self.paths[a[1]])
+            a = File(self.paths[a[1]]) if a[0] == "file" else prim_py(a)
         return getattr(mod, "t%d" % n)(a)
 
     def val_str(self, v):
         from redun import File
         if isinstance(v, bool):
-            return "?bool"
+            return "prim(3,%d)" % int(v)
+        if isinstance(v, float):
+            import math
+            return "prim(%d,%d)" % (2 if math.copysign(1.0, v) < 0 else 1, int(v)) if v == int(v) else "?float"
         if isinstance(v, int):
             return str(v)
         if isinstance(v, File):
@@ -429,7 +474,12 @@ class RealHist:
         if isinstance(v, File):
             p, s = self.hash2stamp.get(v.hash, (0, 0))
             return ("file", p, s)
-        return v if isinstance(v, int) and not isinstance(v, bool) else 0
+        if isinstance(v, bool):
+            return ("prim", 3, int(v))
+        if isinstance(v, float):
+            import math
+            return ("prim", 2 if math.copysign(1.0, v) < 0 else 1, int(v))
+        return v if isinstance(v, int) else 0
 
     def res_str(self, status, payload):
         if status == "ok":
@@ -718,6 +768,13 @@ def corpus():
         [dict(code={0: (0, False), 1: (0, False), 2: (0, False), 3: (0, False)}, fs={0: 1, 1: 1}, root=(0, 0)),
          dict(code={0: (0, False), 1: (0, False), 2: (0, False), 3: (0, False)}, fs={0: 1, 1: 1}, root=(0, 0)),
          dict(code={0: (0, False), 1: (0, False), 2: (0, False), 3: (1, False)}, fs={0: 1, 1: 1}, root=(0, 0), edits=[["body", 3, 1]])])
+    # argument changes between values that are equal under == but are different values: 0.0, -0.0, False, 0, True, 1.0, 1
+    code2 = {0: (0, False), 1: (0, False)}
+    out["lookalike-arguments"] = H(
+        [("I", "src"), ("I", "src")],
+        [[("ret", ("add", ("kindarg",), C(1, A)))], [("ret", ("add", ("kindarg",), ("numarg",)))]],
+        [dict(code=dict(code2), fs={0: 1, 1: 1}, root=(0, a), edits=[["arg", a]]) for a in
+         [("prim", 1, 0), ("prim", 2, 0), ("prim", 3, 0), 0, ("prim", 3, 1), ("prim", 1, 1), 1, ("prim", 1, 0)]])
     # edit / revert / bump of a leaf under two levels of cached single reductions
     out["edit-revert-bump"] = H(
         [("I", "src"), ("I", "ver"), ("I", "ver")],
@@ -762,9 +819,10 @@ def run(ctx):
         rng = ctx.rng
         for idx in range(ctx.n(140, 1500)):
             allow_catch = rng.random() < 0.25
-            h = gen_history(rng, rng.randrange(2, nsteps_max + 1), allow_catch)
-            cases.append(("gen%d" % idx, h, dict(source="generated", catch=allow_catch)))
-        budget = 42 if ctx.tier == "quick" else 460
+            prim = rng.random() < 0.15
+            h = gen_history(rng, rng.randrange(2, nsteps_max + 1), allow_catch, prim=prim)
+            cases.append(("gen%d" % idx, h, dict(source="generated", catch=allow_catch and not prim, lookalike_args=prim)))
+        budget = 36 if ctx.tier == "quick" else 460
         done = []
         for k, (label, h, tags) in enumerate(cases):
             done.append((label, h, tags, run_real(env, h)))
